@@ -1,6 +1,7 @@
 package files
 
 import (
+	"errors"
 	"fmt"
 	"io/fs"
 	"os"
@@ -457,6 +458,10 @@ func addGlobbedFiles(
 			return err
 		}
 
+		if info, err := os.Lstat(src); err == nil && info.Mode()&fs.ModeSymlink == 0 && !info.Mode().IsRegular() && !info.IsDir() {
+			return specialFileError(src, info.Mode().Type())
+		}
+
 		// if the file has a FileInfo, we need to copy it but recalculate its size
 		newFileInfo := origFile.FileInfo
 		if newFileInfo != nil {
@@ -545,6 +550,8 @@ func addTree(
 			c.Type = TypeSymlink
 			c.Source = filepath.ToSlash(strings.TrimPrefix(linkDestination, filepath.VolumeName(linkDestination)))
 			c.Destination = NormalizeAbsoluteFilePath(destination)
+		case !d.Type().IsRegular():
+			return specialFileError(path, d.Type())
 		default:
 			c.Type = TypeFile
 			c.Source = path
@@ -571,6 +578,14 @@ func addTree(
 
 		return nil
 	})
+}
+
+// ErrSpecialFile is returned for a source that is a named pipe, a socket or
+// a device: it cannot be packaged, and reading it may block or never end.
+var ErrSpecialFile = errors.New("source is neither a regular file, a directory nor a symlink")
+
+func specialFileError(path string, mode fs.FileMode) error {
+	return fmt.Errorf("%s (%s): %w", path, mode.Type(), ErrSpecialFile)
 }
 
 var ErrContentCollision = fmt.Errorf("content collision")
